@@ -119,7 +119,11 @@ fn run_case(idx: usize, line: &str, dir: &str, stage_bin: &str, out: &mut Out) {
         std::fs::write(p, b"").unwrap();
     }
     // the harness's own streams: what "inherit" means for the children
-    repoint(0, if spec.get("in") == "I" { &inpath } else { "/dev/null" }, false);
+    // the harness's own stdin is what "inherit" means; when the pipeline's input is DATA it holds a decoy: if anything of it
+    // shows up downstream, the first command was not given the configured input (e.g. zero bytes of data = immediate EOF)
+    let decoy = format!("{}/decoy", dir);
+    std::fs::write(&decoy, b"LEAK1\nLEAK2\n").unwrap();
+    repoint(0, if spec.get("in") == "I" { &inpath } else if spec.get("in") == "D" { &decoy } else { "/dev/null" }, false);
     repoint(1, &outpath, true);
     repoint(2, &errpath, true);
     let fds_before = count_fds();
